@@ -3,6 +3,7 @@ the runner Ops/Multi.v; closed-world theorems over the timer-firing simulator
 Ops/TimedSim.v (Props/C16.v); tie: K2 multi-source port-level replay with the
 proxy scheduler (harness/k2m.py, harness/timed_table.py); oracle: below, a
 direct reading of the property statement on the implementation's log."""
+import timed_extra as te
 import timed_table as tt
 from timed_table import view, common_timed, elems, terminal, src_view
 from k2 import err_id
@@ -152,7 +153,7 @@ def o_sample(inst, res, v, p=None):
     if got != exp:
         return f"sample: emissions (input position, kind, value) {got}, expected {exp}"
     if p is not None:
-        ticks = [t for t, i in res["inputs"] if i[0] == "tick"]
+        ticks = [t - res.get("t0", 0) for t, i in res["inputs"] if i[0] == "tick"]   # time since subscription
         if ticks != [p * (j + 1) for j in range(len(ticks))]:
             return f"sample({p}): sampler ticks at {ticks}"
         # a tick is missing only if the run ended (terminal/dispose/horizon) before it was due
@@ -181,8 +182,10 @@ def oracle(name, inst, res):
 
 def feedback_scenarios(chk):
     """oracle-only: the subscriber feeds an element back into the source from inside its own on_next
-    (sample with an observable sampler; debounce/throttle_first driven by a hand clock are not affected by
-    feedback at the same instant and are left to the machines)"""
+    (sample with an observable sampler).  debounce, throttle_with_mapper and sample(period) ARE affected by
+    feedback too (the pending flag used to be cleared after the downstream call, /repo af47396): they are
+    covered by the families fb_debounce, fb_throttle_mapper and fb_sample_period of harness/timed_extra.py;
+    throttle_first keeps no pending element."""
     from reactivex import operators as ops
     from reactivex.subject import Subject
     n = 80 if chk.tier == "quick" else 1000
@@ -241,13 +244,27 @@ def run(chk):
     nt = feedback_scenarios(chk)
     chk.cov["distinct_nontrivial"] = chk.cov.get("distinct_nontrivial", 0) + len(nt)
     chk.cov["feedback_scenarios_nontrivial"] = len(nt)
+    te.run_families(chk, "C16", {"fb_debounce": (300, 4000), "fb_throttle_mapper": (300, 4000),
+                                 "twm_kinds": (300, 4000), "fb_sample_period": (150, 2000),
+                                 "throttle_first_nonpositive": (40, 300)})
     chk.cov["rule"] = ("per operator: seeded instances (due times / windows / periods 0/5/10/20 ms as float seconds or "
                        "timedelta; scheduler passed to the operator or to subscribe; mapper tables indexed by "
                        "invocation, 12% raising) x seeded timelines of hand-driven hot sources on the proxy "
                        "scheduler's virtual clock (0-5 elements, gaps 0 / due-5 / due / due+5 / 2*due, bursts at one "
                        "instant, values incl. 0 and None, completion/error/none with a pending element, 10% "
-                       "non-conforming tails, 15% with a dispose instant); non-trivial = distinct (machine, "
-                       "delivered input sequence) with >= 2 emissions and the oracle satisfied")
+                       "non-conforming tails, 15% with a dispose instant; the measured subscription happens at "
+                       "proxy-clock reading 0/35/200/1000 ms and in 35% of the cases is the SECOND subscription of the "
+                       "same observable object, after a warm-up subscription with its own timeline, fired timers and "
+                       "dispose); non-trivial = distinct (machine, delivered input sequence) with >= 2 emissions and "
+                       "the oracle satisfied.  Oracle-only families (cov.oracle_only_families; non-trivial = distinct "
+                       "parameter sets with >= 2 notifications, a push having happened in the feedback families): "
+                       "fb_debounce / fb_sample_period = debounce, throttle_with_timeout, sample(period) under "
+                       "TestScheduler with a subscriber that pushes an element / completion / error back into the "
+                       "source from inside on_next; fb_throttle_mapper = the same with hand-held throttle observables; "
+                       "twm_kinds = throttle_with_mapper whose throttle observables fire inside subscribe(), are "
+                       "hand-held, or are real timer(x)/empty()/of() under TestScheduler; throttle_first_nonpositive = "
+                       "zero / negative windows (refused with nothing emitted, or everything passes); same-instant "
+                       "orders the text leaves open are skipped as ties (counted)")
     chk.cov["operators_modelled"] = NAMES
     return chk.finish(trusted_extra=[
         "multi-source K2 driver harness/k2m.py with its proxy scheduler (integer-millisecond virtual clock, records "
@@ -258,10 +275,16 @@ def run(chk):
         "closed-world comparison (harness/timed_table.py: closed_world): hand-made hot sources whose notifications "
         "are queued before the subscription, under reactivex.testing.TestScheduler and HistoricalScheduler",
         "closed-world theorems are about Ops/TimedSim.v: every requested timer fires exactly at request time + "
-        "clamped delay, source events first at equal instants (the proxy scheduler's policy)"],
+        "clamped delay, source events first at equal instants (the proxy scheduler's policy)",
+        "harness/timed_table.py run_case/warm_up: the warm-up subscription and the clock offset are applied inside "
+        "the build callback handed to k2m.run_multi (the harness state is wiped as k2m does after its own warm-up)",
+        "harness/timed_extra.py: oracle-only families with their own hand-made hot source, TestScheduler driver and "
+        "references written from the property text (no Coq model behind them)"],
         assumptions=["timelines are in integer milliseconds; datetime/timedelta arithmetic is exact on them",
                      "sample(period): runs are cut at a horizon of 3 periods after the last source event"])
 
 
 def replay(chk, path):
+    if te.is_family_replay(path):
+        return te.replay_family("C16", path)
     return tt.replay_cases("C16", oracle, path)
